@@ -72,7 +72,7 @@ func (g *sliceGen) step() {
 	for tries := 0; tries < 20; tries++ {
 		a := g.pick()
 		sa := g.vars[a]
-		switch rng.Intn(10) {
+		switch rng.Intn(13) {
 		case 0: // make
 			n := rng.Intn(4)
 			g.line("%s = make([]int, %d)", a, n)
@@ -91,7 +91,7 @@ func (g *sliceGen) step() {
 			*sa = slState{arr: g.narr, len: n, cap: n}
 			g.steps["literal"]++
 			return
-		case 2: // sub-slice
+		case 2, 10, 11, 12: // sub-slice
 			b := g.pick()
 			sb := g.vars[b]
 			if sb.isNil {
@@ -105,11 +105,11 @@ func (g *sliceGen) step() {
 			hi := lo + rng.Intn(limit-lo+1)
 			switch rng.Intn(4) {
 			case 0:
-				if hi == sb.len {
-					g.line("%s = %s[%d:]", a, b, lo)
-				} else {
+				if lo > sb.len {
 					continue
 				}
+				hi = sb.len
+				g.line("%s = %s[%d:]", a, b, lo)
 			case 1:
 				lo = 0
 				g.line("%s = %s[:%d]", a, b, hi)
@@ -119,6 +119,9 @@ func (g *sliceGen) step() {
 			nc := -1
 			if sb.cap >= 0 {
 				nc = sb.cap - lo
+			}
+			if hi > sb.len {
+				g.steps["subslice-beyond-len"]++
 			}
 			*sa = slState{arr: sb.arr, off: sb.off + lo, len: hi - lo, cap: nc}
 			g.steps["subslice"]++
@@ -240,9 +243,7 @@ func genSliceProg(id int, seed int64, nsteps int, symIdx bool) *Prog {
 	for _, n := range g.names {
 		g.vars[n] = &slState{isNil: true}
 	}
-	g.line("var a []int")
-	g.line("var b []int")
-	g.line("var c []int")
+	g.prelude(id)
 	for i := 0; i < nsteps; i++ {
 		g.step()
 		g.dump(i)
@@ -280,6 +281,44 @@ func genSliceProg(id int, seed int64, nsteps int, symIdx bool) *Prog {
 		fam = "symidx"
 	}
 	return &Prog{ID: fmt.Sprintf("slices:%d", seed), Src: src, Entry: name, Params: g.params, Results: []string{"int"}, Family: fmt.Sprintf("C11/%s/seed%d", fam, seed)}
+}
+
+// prelude declares the pool; every other program starts from two overlapping views of one array with spare capacity
+// (so in-place appends and re-slices up to the capacity are reached within a few steps).
+func (g *sliceGen) prelude(id int) {
+	if id%2 == 0 {
+		g.line("var a []int")
+		g.line("var b []int")
+		g.line("var c []int")
+		return
+	}
+	n := 3 + g.rng.Intn(3)
+	var el []string
+	for i := 0; i < n; i++ {
+		el = append(el, g.input())
+	}
+	g.line("a := []int{%s}", strings.Join(el, ", "))
+	g.narr++
+	*g.vars["a"] = slState{arr: g.narr, len: n, cap: n}
+	lo := g.rng.Intn(n)
+	hi := lo + g.rng.Intn(n-lo)
+	g.line("b := a[%d:%d]", lo, hi)
+	*g.vars["b"] = slState{arr: g.narr, off: lo, len: hi - lo, cap: n - lo}
+	g.line("var c []int")
+	g.steps["prelude-views"]++
+}
+
+// genSliceSteps reports which step kinds a generated history contains (generator statistics).
+func genSliceSteps(id int, seed int64, nsteps int) map[string]int {
+	g := &sliceGen{rng: rand.New(rand.NewSource(seed)), vars: map[string]*slState{}, names: []string{"a", "b", "c"}, steps: map[string]int{}}
+	for _, n := range g.names {
+		g.vars[n] = &slState{isNil: true}
+	}
+	g.prelude(id)
+	for i := 0; i < nsteps; i++ {
+		g.step()
+	}
+	return g.steps
 }
 
 func checkC11(tier string, seed int64) int {
